@@ -210,11 +210,34 @@ func (e *explorer) record(vs []Violation) {
 			continue
 		}
 		cur = append(cur, v)
-		sort.SliceStable(cur, func(i, j int) bool { return len(cur[i].Path) < len(cur[j].Path) })
-		if len(cur) > 6 {
-			cur = cur[:6]
+		// prefer paths that go through a rollback-route op (on a tree that keeps state outside the store these are the
+		// ones that reproduce sequentially; shorter paths may owe their failure to discarded forks), then shorter paths
+		hasRB := func(x Violation) int {
+			for _, n := range x.Path {
+				if strings.HasPrefix(n, "Tx[") || strings.HasPrefix(n, "Simulate(") || strings.HasPrefix(n, "CheckTx(") {
+					return 0
+				}
+			}
+			return 1
 		}
-		e.viols[v.Sig] = cur
+		sort.SliceStable(cur, func(i, j int) bool {
+			if hasRB(cur[i]) != hasRB(cur[j]) {
+				return hasRB(cur[i]) < hasRB(cur[j])
+			}
+			return len(cur[i].Path) < len(cur[j].Path)
+		})
+		nrb, nplain := 0, 0
+		var keep []Violation
+		for _, c := range cur {
+			if hasRB(c) == 0 && nrb < 5 {
+				keep = append(keep, c)
+				nrb++
+			} else if hasRB(c) == 1 && nplain < 3 {
+				keep = append(keep, c)
+				nplain++
+			}
+		}
+		e.viols[v.Sig] = keep
 	}
 }
 
